@@ -236,6 +236,8 @@ def check_case(ctx, drv, case):
                       f"reported cost figure differs from the definition: {fail[0]}")
         return False
 
+    if drv is None:
+        return True
     # --- correspondence with the Lean model ------------------------------------------------
     order = obs["peaks"][1]["seq"]
     resp = drv.call("c03.nodes", net=case["net"], removed=removed, sliced=sliced, tree=obs["bt"],
@@ -358,15 +360,7 @@ def replay(ctx, obj):
         c2 = common.Ctx(PROP, "quick", 0)
         c2.violation = lambda *a, **k: True
         return history_case(c2, None, obj["hcase"])
-    case = obj["case"]
-    obs, tree, net = observe(case)
-    removed = [ix for ix, _ in case["removed"]]
-    sliced = [ix for ix, p in case["removed"] if p is None]
-    spec = refimpl.spec_costs(net, obs["bt"], removed, sliced)
-    spec_rows = {tuple(r["leaves"]): r for r in spec["rows"]}
-    ok = all(obs[k] == spec[k] for k in ("flops", "write", "size"))
-    for r in obs["rows"]:
-        s = spec_rows[tuple(r["leaves"])]
-        ok = ok and r["size"] == s["size"] and r["flops"] == s["flops"]
-    bad, _ = observed_shapes(tree, net, case)
-    return ok and not bad
+    from . import common
+    c2 = common.Ctx(PROP, "quick", 0)
+    c2.violation = lambda *a, **k: True
+    return check_case(c2, None, obj["case"])
